@@ -105,7 +105,7 @@ fn compile_native_asset_for_output(
 ) -> Result<primitives::Multiasset<primitives::PositiveCoin>, Error> {
     let policy = coercion::expr_into_bytes(&ir.policy)?;
     let policy = coercion::bytes_into_hash(policy.as_slice())?;
-    let asset_name = coercion::expr_into_bytes(&ir.asset_name)?;
+    let asset_name = coercion::expr_into_asset_name(&ir.asset_name)?;
     let amount = coercion::expr_into_number(&ir.amount)?;
     let amount = primitives::PositiveCoin::try_from(number_into::<u64>(amount, "asset amount")?)
         .map_err(|_| Error::CoerceError(amount.to_string(), "positive asset amount".to_string()))?;
@@ -121,7 +121,7 @@ fn compile_native_asset_for_mint(
 ) -> Result<primitives::Multiasset<primitives::NonZeroInt>, Error> {
     let policy = coercion::expr_into_bytes(&ir.policy)?;
     let policy = coercion::bytes_into_hash(policy.as_slice())?;
-    let asset_name = coercion::expr_into_bytes(&ir.asset_name)?;
+    let asset_name = coercion::expr_into_asset_name(&ir.asset_name)?;
     let amount = coercion::expr_into_number(&ir.amount)?;
 
     if amount <= 0 {
